@@ -50,31 +50,37 @@ def rowComb (s1 s0 : Rat) (r0 r1 : List Rat) : List Rat :=
 /-- `ind = np.argmin(np.abs(x - xf))` for one query (first minimum) -/
 def nearest (xf : List Rat) (x : Rat) : Nat := argmin (xf.map (fun a => absv (x - a)))
 
+/-- `ind0 = np.clip(np.where(x_ind > x, ind - 1, ind), 0, None)` -/
+def lowIdx (ind : Nat) (gt : Bool) : Int :=
+  let i : Int := if gt then (ind : Int) - 1 else ind
+  if i < 0 then 0 else i
+
+/-- `ind1 = np.clip(np.where(x_ind > x, ind, ind + 1), None, len(xf) - 1)` -/
+def highIdx (n ind : Nat) (gt : Bool) : Int :=
+  let i : Int := if gt then (ind : Int) else (ind : Int) + 1
+  if i > (n : Int) - 1 then (n : Int) - 1 else i
+
+/-- `denom = a1 - a0; denom_adj = np.clip(denom, 1e-10, None);
+s0 = np.where(denom > 0, (x - a0) / denom_adj, 1)` -/
+def weight (a0 a1 x : Rat) : Rat :=
+  let denom := a1 - a0
+  let denom_adj := if denom < tol then tol else denom
+  if denom > 0 then (x - a0) / denom_adj else 1
+
 /-- one row of `interp2d`: everything the code does for the query `x` -/
 def interp2dRow (xf : List Rat) (f : List (List Rat)) (x : Rat) : Except ErrKind (List Rat) := do
-  -- ind = np.argmin(np.abs(x[:, np.newaxis] - xf), axis=1)
-  let ind : Nat := nearest xf x
-  -- x_ind = xf[ind]
-  let x_ind ← pyGet xf ind
-  -- ind0 = np.where(x_ind > x, ind - 1, ind);  ind1 = np.where(x_ind > x, ind, ind + 1)
-  let ind0 : Int := if x_ind > x then (ind : Int) - 1 else ind
-  let ind1 : Int := if x_ind > x then (ind : Int) else (ind : Int) + 1
-  -- ind0 = np.clip(ind0, 0, None);  ind1 = np.clip(ind1, None, len(xf) - 1)
-  let ind0 : Int := if ind0 < 0 then 0 else ind0
-  let ind1 : Int := if ind1 > (xf.length : Int) - 1 then (xf.length : Int) - 1 else ind1
+  -- ind = np.argmin(np.abs(x[:, np.newaxis] - xf), axis=1);  x_ind = xf[ind]
+  let x_ind ← pyGet xf (nearest xf x : Nat)
+  -- ind0 = np.where(x_ind > x, ind - 1, ind);  ind1 = np.where(x_ind > x, ind, ind + 1);  the two clips
+  let ind0 := lowIdx (nearest xf x) (decide (x_ind > x))
+  let ind1 := highIdx xf.length (nearest xf x) (decide (x_ind > x))
   -- f0 = f[ind0]; f1 = f[ind1]; a0 = xf[ind0]; a1 = xf[ind1]
   let f0 ← pyGet f ind0
   let f1 ← pyGet f ind1
   let a0 ← pyGet xf ind0
   let a1 ← pyGet xf ind1
-  -- denom = a1 - a0;  denom_adj = np.clip(denom, 1e-10, None)
-  let denom := a1 - a0
-  let denom_adj := if denom < tol then tol else denom
-  -- s0 = np.where(denom > 0, (x - a0) / denom_adj, 1);  s1 = 1 - s0
-  let s0 : Rat := if denom > 0 then (x - a0) / denom_adj else 1
-  let s1 := 1 - s0
-  -- s1[:, np.newaxis] * f0 + s0[:, np.newaxis] * f1
-  pure (rowComb s1 s0 f0 f1)
+  -- s0 = …;  s1 = 1 - s0;  s1[:, np.newaxis] * f0 + s0[:, np.newaxis] * f1
+  pure (rowComb (1 - weight a0 a1 x) (weight a0 a1 x) f0 f1)
 
 /-- `eqsig.fns.generic.interp2d(x, xf, f)`; `f` is a rectangular table with one row per node.
 `ValueError` for an empty node array (`argmin` of an empty sequence — also for empty `x`),
